@@ -105,11 +105,15 @@ fn walk(l: &IntArrayFreeList, g: &Ghost) -> (bool, i32) {
 /// Single list, one initial run (grain == units): the configuration every in-tree user creates.
 /// Up to 4 alloc/free operations, then everything is freed and the whole list is allocated again.
 fn single(s: &mut Src, units: i32, with_marks: bool) {
+    single_n(s, units, with_marks, 3)
+}
+
+fn single_n(s: &mut Src, units: i32, with_marks: bool, steps: usize) {
     let mut l = IntArrayFreeList::new(units as usize, units, 1);
     let mut g = Ghost { units, own: [0; MAXU], next_id: 1, mark: [false; MAXU + 1] };
     let mut starts = [-1i32; 5];
     let mut step = 0;
-    while step < 3 {
+    while step < steps {
         let is_alloc = s.any_bool();
         let is_mark = with_marks && s.any_bool();
         if is_mark {
@@ -175,6 +179,10 @@ pub fn c26_single_u6(s: &mut Src) {
 /// Single list with uncoalescable boundaries placed at run starts.
 pub fn c26_single_marks(s: &mut Src) {
     single(s, 5, true)
+}
+/// Thorough tier: four operations on a 4-unit list.
+pub fn c26_single_u4_4ops(s: &mut Src) {
+    single_n(s, 4, false, 4)
 }
 pub fn c26_single_u3(s: &mut Src) {
     single(s, 3, false)
@@ -277,6 +285,7 @@ pub fn c26_two_heads_u5(s: &mut Src) {
 harnesses! {
     #[kani::unwind(8)] c26_single_u6; // timeout=900
     #[kani::unwind(8)] c26_single_u3; // timeout=900
+    #[kani::unwind(8)] c26_single_u4_4ops; // tier=thorough timeout=2400
     #[kani::unwind(8)] c26_single_marks; // timeout=900
     #[kani::unwind(8)] c26_two_heads_one_run; // tier=wip timeout=900
     #[kani::unwind(8)] c26_two_heads_grain2; // tier=wip timeout=900
